@@ -77,9 +77,18 @@ impl AuthenticationRequest {
         data: &[u8],
         parameter: impl Into<AuthenticationParameter>,
     ) -> Result<Self, TryFromSliceError> {
+        // A payload shorter than its fixed-size fields or than the declared key handle length
+        // is reported with the same error as a fixed-size field of the wrong length.
+        let too_short = || <[u8; 1]>::try_from([].as_slice());
+        if data.len() < 65 {
+            too_short()?;
+        }
         let (challenge, data) = data.split_at(32);
         let (application, data) = data.split_at(32);
         let (handle_len, data) = data.split_at(1);
+        if data.len() < handle_len[0] as usize {
+            too_short()?;
+        }
         let key_handle = data[..handle_len[0] as usize].to_vec();
         Ok(Self {
             parameter: parameter.into(),
